@@ -17,7 +17,7 @@ EXPLANATION = (
     "indexed with the same index; detuning_off_options iterates the same _switching_beams_combos list that the beams lookup uses; enable_eom waits for the fall time and then adds a buffer of "
     "adjust_duration(_eom_buffer_time) unless told to skip; disable_eom closes the block at the current end and buffers with the custom buffer time if defined, else waits for the fall; "
     "_eom_buffer_time = custom_buffer_time or 2*rise_time; Sequence.enable/modify record what _process_eom_parameters computed (C04). "
-    "NOT decided: the drift-correction populations (emulator physics)."
+    "NOT decided: the drift-correction populations (emulator physics). OWN/FLOW (added): _PhaseDriftParams is built only where a block is opened and in _get_last_eom_pulse_phase_drift; disable_eom_mode corrects the drift from the last EOM pulse to the end of the block; ChannelSamples.modulate extends the mask of every EOM block by the fall time inside the loop over the blocks; the drift window of enable/modify starts where the buffer starts."
 )
 ASSUMPTIONS = ["formulas, guards and sibling code are matched on the symbolic normal form (pstatic/sym.py): temporaries, private helpers, conditional forms and operand order do not matter; state mutation between two reads of one access path is not modelled (orderings are taken from the program order of the logged calls)"]
 
